@@ -57,8 +57,13 @@ def read_written_unit(which):
             p2 = lambda x: H.wb(Rg, x)
             spec = H.writes(Rg, INS)
         tot = lambda roles: H.length(INS, roles[0]) + H.length(INS, roles[1])
-        ex.invariants[(which, 0)] = lambda ex_, env, k: tb(env[which]) == H.exists_in(INS, first_roles, p1, k)
-        ex.invariants[(which, 1)] = lambda ex_, env, k: tb(env[which]) == z3.Or(H.exists_in(INS, first_roles, p1), H.exists_in(INS, second_roles, p2, k))
+        # the accumulator flag of is_read / is_written, found by its role (the one boolean local), not by its name
+        def flag(env):
+            fl = [v_ for n_, v_ in env.items() if isinstance(v_, (bool, SBool)) and n_ != "self"]
+            return env[which] if which in env else fl[0] if len(fl) == 1 else env[which]
+
+        ex.invariants[(which, 0)] = lambda ex_, env, k: tb(flag(env)) == H.exists_in(INS, first_roles, p1, k)
+        ex.invariants[(which, 1)] = lambda ex_, env, k: tb(flag(env)) == z3.Or(H.exists_in(INS, first_roles, p1), H.exists_in(INS, second_roles, p2, k))
 
         def run():
             selfo = SObj("KernelDG", parser=SObj("Parser"))
